@@ -19,6 +19,14 @@ CHECKS = {
    "Reference-model oracle: an independent greedy wrapper. Bounded-exhaustive over all sequences of <=3 (quick) / <=5 (thorough) words from an 11-word set x widths 1..=9, plus random paragraphs (<=60 words, 12 separator kinds, text cut over inline elements/text nodes, max_wrap_width, prefixed blocks) x width 1..=40; line lists must be equal and Err <=> a character wider than the line.",
    "Trusted: the 30-line reference wrapper; words have display width >= 1.",
    "bounded-exhaustive enumeration + property-based testing (proptest) against a reference model"),
+ "C05": ("exploration",
+   "Validity predicates on the rendered character-cell grid of generated regular tables (random incl. nested tables; bounded-exhaustive over all tables up to 2x3 quick / 3x3 thorough x widths 1..=30): local junction law at every rule glyph and bar, equal line widths, first/last rules, one band per row, bars aligned within a band; stacked layout: full-width separators and rules.",
+   "Trusted: the grid parser (wide characters occupy two cells); the layout actually used is read off the output; spans over text-less columns are a known finding (junction law only).",
+   "bounded-exhaustive enumeration + property-based testing (proptest), validity predicate over a parsed output grid"),
+ "C06": ("exploration",
+   "Generated regular tables with one identifying character per text node: every character of the output is mapped back to its source cell and must lie between the bars of the columns the cell spans (column boundaries recovered from the output and matched against an independent re-computation of the column geometry), rows/cells in order, every non-empty cell present; stacked layout: one cell per line, contiguous, in order. Bounded-exhaustive small scope as in C05.",
+   "Trusted: identifying characters; tablegeo re-computation of colspan remapping; the starved/ragged known-finding class is excluded and counted.",
+   "bounded-exhaustive enumeration + property-based testing (proptest), position oracle via identifying characters"),
  "C10": ("exploration",
    "Stateful generation: a history of <=6 renders (route x width) is interpreted against one render tree built once and cloned per render; every result is compared with a fresh one-shot rendering (differential oracle), plus determinism and route/free-function agreement.",
    "Trusted: string_from_read as the reference route; identity colour map.",
